@@ -4,7 +4,7 @@
 //!           "name"?: str, "embed"?: "snippet"|"import"|"ext"|"tla",
 //!           "ext_str"?: {..}, "ext_code"?: {..}, "tla_str"?: {..}, "tla_code"?: {..},
 //!           "files"?: {name: text}, "max_stack"?: n, "trace"?: bool, "errtext"?: bool,
-//!           "seq"?: [request, ...]}
+//!           "seq"?: [request, ...], "codes"?: [snippet, ...] (one State for all of them)}
 //! answer   {"ok": <canon tree or text>} | {"err": kind, "msg": text} | {"panic": text}
 //!          plus "traces": [labels] when asked, "errtext": formatted trace when asked.
 use std::{
@@ -260,6 +260,24 @@ fn eval_one(req: &Value) -> Value {
 	}
 	let s = sb.build();
 	let _g = s.enter();
+
+	// "codes": several snippets evaluated in order on this ONE State (its import cache and the
+	// objects held by it survive from one snippet to the next); C16 shared-state histories
+	if let Some(Value::Array(codes)) = req.get("codes") {
+		let mut outs = Vec::new();
+		for c in codes {
+			let c = c.as_str().unwrap_or("").to_owned();
+			let r = (|| -> Result<Value> {
+				let v = s.evaluate_snippet(name.clone(), c.as_str())?;
+				manifest_out(&v, &out)
+			})();
+			outs.push(match r {
+				Ok(v) => json!({ "ok": v }),
+				Err(e) => err_json(&e),
+			});
+		}
+		return json!({ "multi": outs });
+	}
 
 	let run = || -> Result<Value> {
 		let val = match embed.as_str() {
